@@ -157,6 +157,20 @@ fn eval_discr(e: &Expr) -> Option<i128> {
         Expr::Lit(ExprLit { lit: Lit::Int(i), .. }) => i.base10_parse::<i128>().ok(),
         Expr::Unary(ExprUnary { op: UnOp::Neg(_), expr, .. }) => eval_discr(expr).map(|v| -v),
         Expr::Paren(p) => eval_discr(&p.expr),
+        // constant-folded discriminants such as `0b01 << 6` or `(0x03 << 1)`
+        Expr::Binary(b) => {
+            let (l, r) = (eval_discr(&b.left)?, eval_discr(&b.right)?);
+            match b.op {
+                BinOp::Shl(_) if (0..64).contains(&r) => Some(l << r),
+                BinOp::Shr(_) if (0..64).contains(&r) => Some(l >> r),
+                BinOp::BitOr(_) => Some(l | r),
+                BinOp::BitAnd(_) => Some(l & r),
+                BinOp::Add(_) => Some(l + r),
+                BinOp::Sub(_) => Some(l - r),
+                BinOp::Mul(_) => Some(l * r),
+                _ => None,
+            }
+        }
         _ => None,
     }
 }
